@@ -157,8 +157,10 @@ static void tr_flush() {
 
 // ------------------------------------------------------------------------------------ reporting
 static void copy_counts();
+static void dump_backtraces();
 [[noreturn]] static void finish(const char* cls, const char* msg) {
     g_active = 0;
+    if (g_trace && strcmp(cls, "ok") != 0) dump_backtraces();
     if (g_out) {
         snprintf(g_out->cls, sizeof g_out->cls, "%s", cls);
         snprintf(g_out->msg, sizeof g_out->msg, "%s", msg ? msg : "");
@@ -655,6 +657,33 @@ void point_slow(int kind, const void* addr) {
     }
     schedule(kind);
     if (g_watch_fn && (const char*)addr >= g_watch_lo && (const char*)addr < g_watch_hi) g_watch_fn(kind, addr);
+}
+
+// Frame-pointer walk of every fiber (trace mode only): addresses are resolved offline with addr2line
+// (no ASLR, so they are stable).  Debugging aid for deadlock / livelock verdicts.
+static void dump_backtraces() {
+    for (int i = 0; i < g_nfib; ++i) {
+        Fiber* f = g_fibers[i];
+        if (f->state == F_DONE) continue;
+        uintptr_t* frame;
+        if (f == g_cur) frame = (uintptr_t*)__builtin_frame_address(0);
+        else { uintptr_t* sp = (uintptr_t*)f->sp; tr("[sim] bt f%d: %p", f->id, (void*)sp[7]); frame = (uintptr_t*)sp[6]; }
+        if (f == g_cur) tr("[sim] bt f%d:", f->id);
+        for (int depth = 0; depth < 40 && frame; ++depth) {
+            uintptr_t fa = (uintptr_t)frame;
+            // the frame must lie on some mapped stack: accept the fiber's own stack or a TBB coroutine stack
+            bool own = fa >= (uintptr_t)f->stack_lo && fa + 16 <= (uintptr_t)f->stack_lo + f->stack_size;
+            bool co = fa >= (uintptr_t)f->cur_stack_bottom && fa + 16 <= (uintptr_t)f->cur_stack_bottom + f->cur_stack_size;
+            if (!own && !co) break;
+            uintptr_t ret = frame[1];
+            if (!ret) break;
+            tr(" %p", (void*)ret);
+            uintptr_t* next = (uintptr_t*)frame[0];
+            if (next <= frame) break;
+            frame = next;
+        }
+        tr("\n");
+    }
 }
 
 // ------------------------------------------------------------------------------------ child_run
